@@ -28,9 +28,13 @@ func CaptureResponse(w http.ResponseWriter) *ResponseCapture {
 	return &ResponseCapture{ResponseWriter: w}
 }
 
-// WriteHeader records the value of the status code before writing it.
+// WriteHeader records the value of the status code before writing it. Like
+// net/http it ignores superfluous calls: only informational (1xx) statuses may
+// be followed by another status.
 func (w *ResponseCapture) WriteHeader(code int) {
-	w.StatusCode = code
+	if prev := w.StatusCode; prev == 0 || (prev >= 100 && prev < 200 && prev != http.StatusSwitchingProtocols) {
+		w.StatusCode = code
+	}
 	w.ResponseWriter.WriteHeader(code)
 }
 
